@@ -387,31 +387,38 @@ def execute(lib, variant, scenario, xml, k, seed, den):
 
 
 def handler(job):
+  """Counts the allocations N of the fault-free scenario, then executes every single fault in job['ks'] (default
+  1..N+1) and the multi-fault masks, then a clean run."""
   lib = lib_for(job['variant'])
   sc, xml = job['scenario'], job['model']
   base = dict(scenario=sc, model_name=job.get('model_name'), variant=job['variant'])
-  if job['mode'] == 'count':
-    asanproc.journal(dict(base, k=None, phase='count'))
-    execute(lib, job['variant'], sc, xml, -1, 0, 0)                 # warm-up: lazily initialised globals (plugin tables, caches)
-    r = execute(lib, job['variant'], sc, xml, -1, 0, 0)
-    r2 = execute(lib, job['variant'], sc, xml, -1, 0, 0)
-    return dict(N=r['count'], N2=r2['count'], leaked=r['leaked'], badfree=r['badfree'], events=r['events'])
-  runs = []
-  execute(lib, job['variant'], sc, xml, -1, 0, 0)
-  for k in job.get('ks', []):
+  asanproc.journal(dict(base, k=None, phase='count'))
+  execute(lib, job['variant'], sc, xml, -1, 0, 0)          # warm-up: lazily initialised globals (plugin tables, caches)
+  r = execute(lib, job['variant'], sc, xml, -1, 0, 0)
+  r2 = execute(lib, job['variant'], sc, xml, -1, 0, 0)
+  out = dict(N=r['count'], N2=r2['count'], count_run=r, runs=[], final=None)
+  if [e for e in r['events'] if e[1] != 'ok'] or r['count'] != r2['count'] or r['leaked'] or r['badfree']:
+    return out
+  N = r['count']
+  ks = job.get('ks')
+  if ks is None:
+    ks = list(range(1, N + 2))
+    if job.get('max_k'):
+      ks = [k for k in ks if k <= job['max_k']] + [N + 1]
+  for k in ks:
     asanproc.journal(dict(base, k=k, phase='single-fault', model=xml))
     r = execute(lib, job['variant'], sc, xml, k, 0, 0)
     r['k'] = k
-    runs.append(r)
+    out['runs'].append(r)
   for seed, den in job.get('multi', []):
     asanproc.journal(dict(base, seed=seed, den=den, phase='multi-fault', model=xml))
     r = execute(lib, job['variant'], sc, xml, -1, seed, den)
     r['multi'] = [seed, den]
-    runs.append(r)
+    out['runs'].append(r)
   # the process must still be fully functional afterwards
   asanproc.journal(dict(base, k=None, phase='clean-run-after-faults'))
-  final = execute(lib, job['variant'], sc, xml, -1, 0, 0)
-  return dict(runs=runs, final=final)
+  out['final'] = execute(lib, job['variant'], sc, xml, -1, 0, 0)
+  return out
 
 
 if __name__ == '__main__':
